@@ -272,6 +272,12 @@ func ExprSrc(e Expr) string {
 			a = append(a, ExprSrc(x))
 		}
 		return "[" + strings.Join(a, ", ") + "]"
+	case *MapLit:
+		var a []string
+		for i, k := range e.Keys {
+			a = append(a, "'"+k+"' => "+ExprSrc(e.Vals[i]))
+		}
+		return "[" + strings.Join(a, ", ") + "]"
 	case *Var:
 		return "$" + e.Name
 	case *Bin:
